@@ -89,6 +89,23 @@ PY_STMTS = [
     "x = a,\n",
     "x = ()\n",
     "return_ = [a for a in b if a if c]\n",
+    "s = 'abc\\\ndef'\n",
+    's = "a\\\n  b" + \'c\\\nd\'\n',
+    "f(a, *b)\n",
+    "f(a, b, *c)\n",
+    "print(x, y, *z, sep='')\n",
+    "g(*a, *b, **c, **d)\n",
+    "with (open(p)) as f: pass\n",
+    "with (a, b) as c: pass\n",
+    "with (a).b: pass\n",
+    "with (a, b): pass\n",
+    "x = [*a, b]\n",
+    "y = {*a, *b}\n",
+    "z = (*a, b)\n",
+    "def await_(): pass\n",
+    "obj.attr.await_ = 1\n",
+    "if a:\n \tif b:\n         c\n",
+    "if a:\n\tb\n        c\n",
 ]
 
 PY_EXPRS = [
